@@ -230,7 +230,25 @@ func c20GenCase(c *Ctx, stream string, i int) *c20Case {
 		}
 	}
 	tc.ConstPrices = constPrices
-	if stream == "external" || stream == "noflow" || r.Chance(1, 2) {
+	if stream == "mixed" {
+		// disturbances (price changes, @performance annotations) only inside one window [a, b] of the journal's span: the
+		// periods outside it satisfy the hypotheses of the 0%-clause one by one, the journal as a whole does not
+		a := lo + r.Intn(hi-lo+1)
+		b := a + r.Intn((hi-lo)/3+2)
+		var out []JDir
+		for _, d := range j.Dirs {
+			if d.Date < a || d.Date > b {
+				d.Targets = nil
+				if d.Kind == 'p' && d.Date != lo {
+					continue
+				}
+			}
+			out = append(out, d)
+		}
+		j.Dirs = out
+		tc.Tags = append(tc.Tags, "disturbances-in-one-window")
+	}
+	if stream == "external" || stream == "noflow" || (stream != "mixed" && r.Chance(1, 2)) {
 		// no @performance annotations: every transaction is an external flow, an internal transfer, or irrelevant
 		for k := range j.Dirs {
 			j.Dirs[k].Targets = nil
@@ -273,6 +291,9 @@ func c20GenCase(c *Ctx, stream string, i int) *c20Case {
 	f.Interval = Pick(r, []int{0, 1, 2, 2, 3, 3, 3, 4, 5})
 	if hi-lo > 150 && f.Interval == 1 {
 		f.Interval = 3
+	}
+	if stream == "mixed" && f.Interval == 0 {
+		f.Interval = 3 // several periods
 	}
 	if r.Chance(1, 5) {
 		f.Last = r.Range(1, 4)
@@ -829,6 +850,55 @@ func c20Check(c *Ctx, bt *Batch, tc *c20Case, agreed *bool) {
 		}
 	}
 
+	// 0% for every SINGLE period in which the prices of what is held rest and every transaction is plain: the driver
+	// evaluates the hypotheses of C20_zero_period_of_monitor per period (Performance.calmPeriods), the real line must be 0.0%
+	if retOutcome == "ok" && perr == nil {
+		bt.Add(func(model string) {
+			if !strings.HasPrefix(model, "ok ") {
+				return
+			}
+			calm := map[int]bool{}
+			if body := strings.TrimPrefix(model, "ok "); body != "-" {
+				for _, e := range strings.Split(body, ",") {
+					p := strings.SplitN(e, ":", 2)
+					day, _ := strconv.Atoi(p[0])
+					calm[day] = len(p) == 2 && p[1] == "1"
+				}
+			}
+			var bad []string
+			n, other := 0, 0
+			for _, l := range lines {
+				if !calm[l.Day] {
+					other++
+					continue
+				}
+				if l.Undef || illCond[l.Day] {
+					continue
+				}
+				n++
+				if math.Abs(l.Val) > 0.1 {
+					bad = append(bad, fmtDate(l.Day)+": "+l.Text+"%")
+				}
+			}
+			if n == 0 {
+				return
+			}
+			c.Tag("calm-period-checked")
+			if other > 0 {
+				c.Tag("calm-period-among-others")
+			}
+			detail := "non-zero return for a period in which the prices of the commodities held rest and every transaction is plain: " + strings.Join(bad, ", ") + "\n" + tc.RetOut
+			switch {
+			case len(bad) == 0:
+				c.Monitor(tc.Stream, tc.Idx, "zero_period_when_calm", in, true, "")
+			case len(tc.F.Com) > 0:
+				c.MonitorKnown(tc.Stream, tc.Idx, "zero_period_when_calm", in, detail, "returns-commodity-filter-counts-filtered-flows")
+			default:
+				c.Monitor(tc.Stream, tc.Idx, "zero_period_when_calm", in, false, detail)
+			}
+		}, "calm", fw, wire)
+	}
+
 	// ------------------------------------------------ weights
 	if wOutcome != "ok" {
 		if wOutcome == "error" {
@@ -1133,10 +1203,19 @@ func c20Check(c *Ctx, bt *Batch, tc *c20Case, agreed *bool) {
 
 			// returns without flows: a period in which no transaction is booked returns end value / start value - 1
 			if retOutcome == "ok" && perr == nil && partOK && len(lines) == len(ends) {
+				// days with a transaction that crosses the portfolio's boundary (C20_ratio_period_without_flows: transactions
+				// that stay inside the portfolio, or outside it, are no flows); with --account every transaction that touches
+				// an asset/liability account counts
 				txDays := map[int]bool{}
 				for _, d := range tc.J.Dirs {
-					if d.Kind == 't' {
-						txDays[d.Date] = true
+					if d.Kind != 't' {
+						continue
+					}
+					for _, bk := range d.Bookings {
+						cr, dr := c16IsAL(bk.Credit), c16IsAL(bk.Debit)
+						if cr != dr || (len(tc.F.Acc) > 0 && (cr || dr)) {
+							txDays[d.Date] = true
+						}
 					}
 				}
 				var badR []string
@@ -1159,7 +1238,7 @@ func c20Check(c *Ctx, bt *Batch, tc *c20Case, agreed *bool) {
 					want := 100 * (total[bkE]/total[bkS] - 1)
 					c.Tag("ratio-period-checked")
 					if math.Abs(want-lines[k].Val) > 0.1+1e-6*math.Abs(want) {
-						msg := fmt.Sprintf("period %s..%s without transactions: printed %s%%, end/start-1 = %g/%g-1 = %.3f%%", fmtDate(s), fmtDate(e), lines[k].Text, total[bkE], total[bkS], want)
+						msg := fmt.Sprintf("period %s..%s without flows: printed %s%%, end/start-1 = %g/%g-1 = %.3f%%", fmtDate(s), fmtDate(e), lines[k].Text, total[bkE], total[bkS], want)
 						if k == 0 && tc.F.Last > 0 && s > spanStart {
 							known = true
 							c.MonitorKnown(tc.Stream, tc.Idx, "ratio_without_flows", in, msg+"\n"+tc.RetOut, "returns-last-folds-earlier-periods")
@@ -1216,6 +1295,7 @@ func runC20(c *Ctx) {
 	d += runStream("external", 0, n/3)
 	d += runStream("noflow", 0, n/3)
 	d += runStream("malformed", 0, n/4)
+	d += runStream("mixed", 0, n/4)
 	runDecStream(c, c.N(2000, 20000))
 	if d > 0 && !c.Replay {
 		c.Notes = append(c.Notes, fmt.Sprintf("directed search: %d disagreements, %d additional cases", d, 3*n))
